@@ -762,9 +762,56 @@ def c08_r1(ctx, f, rid="C08.R1", roots=None):
 
 def c03_r2(ctx, f):
     rid = "C03.R2"
-    ctx.rule(rid, "who may write: QRCode.data is mutably borrowed / size is stored only by the owner")
+    ctx.rule(rid, "who may write: QRCode.data is mutably borrowed / size is stored only by the owner or by code whose writes are "
+                  "decided exactly; rows handed out are data[i*size .. (i+1)*size]")
     allowed = {"<qr::QRCode as std::ops::IndexMut<usize>>::index_mut", "qr::QRCode::default"}
+    exact_prefixes = ("default::", "datamasking::", "placement::place_on_matrix_data")  # write sets decided by C03.R3/C04.R3/C08.R4/C01.R5
     n = 0
+
+    def flows_out(fn, l):
+        """the QRCode held in local l is the function's result or belongs to the caller"""
+        if l in fn.params():
+            return True
+        for bb in fn.blocks:
+            if bb["cleanup"] or bb["term"]["k"] != "ret":
+                continue
+            pt = (bb["id"], len(bb["stmts"]))
+            try:
+                sl = fn.deps({"k": "copy", "p": {"l": 0, "proj": []}}, pt)
+                if l in getattr(sl, "locals", set()):
+                    return True
+            except Exception:  # noqa: BLE001
+                return True
+            for o in fn.origins({"k": "copy", "p": {"l": 0, "proj": []}}, pt):
+                if o.kind in ("local", "param") and o.info == l:
+                    return True
+        # conservative: a local copied/moved into the return place anywhere
+        for bb in fn.blocks:
+            if bb["cleanup"]:
+                continue
+            for st in bb["stmts"]:
+                if st["k"] == "assign" and st["p"]["l"] == 0:
+                    rv = st["rv"]
+                    ops = [rv.get("op")] + list(rv.get("ops") or [])
+                    for o in ops:
+                        if isinstance(o, dict) and o.get("k") in ("copy", "move") and o["p"]["l"] == l:
+                            return True
+        return False
+
+    def classify(fn, place, what, pt):
+        nonlocal n
+        n += 1
+        key = "%s/%s" % (fn.path, what)
+        if fn.path in allowed:
+            ctx.ok(rid, "%s %s (owner)" % (fn.path, what))
+        elif fn.path.startswith(exact_prefixes):
+            ctx.ok(rid, "%s %s (its write set is decided exactly by partial evaluation)" % (fn.path, what))
+        elif not flows_out(fn, place["l"]):
+            ctx.ok(rid, "%s %s on a scratch matrix that never leaves the function" % (fn.path, what))
+        else:
+            ctx.abstain(rid, "%s: %s of the matrix being built, outside the row accessor and outside the code whose write set "
+                             "is decided exactly: %s" % (key, what, place_str(place)), fn.where(pt))
+
     for fn in f.all_fns():
         for b in fn.blocks:
             if b["cleanup"]:
@@ -773,30 +820,27 @@ def c03_r2(ctx, f):
                 if st["k"] != "assign":
                     continue
                 rv = st["rv"]
-                # mutable borrow of .data
                 if rv["k"] in ("ref", "rawptr") and (rv.get("mut") or rv["k"] == "rawptr" and "Mut" in rv.get("kind", "")):
                     if _touches_field(fn, rv["p"], "qr::QRCode", "data"):
-                        n += 1
-                        ctx.check(rid, fn.path in allowed, "%s/mut-borrow-data" % fn.path, fn.where((b["id"], i)), fn.path,
-                                  "&mut " + place_str(rv["p"]),
-                                  "the backing array is mutably borrowed outside the row accessor: writes could reach "
-                                  "modules outside the size x size square", sample="%s borrows data mutably" % fn.path)
-                # store to .data[..] or .size
+                        classify(fn, rv["p"], "mut-borrow-data", (b["id"], i))
                 p = st["p"]
                 if p["proj"]:
                     for fld in ("data", "size"):
                         if _touches_field(fn, p, "qr::QRCode", fld):
-                            n += 1
-                            ctx.check(rid, fn.path in allowed, "%s/store-%s" % (fn.path, fld), fn.where((b["id"], i)), fn.path,
-                                      place_str(p), "QRCode.%s is written outside the constructor / row accessor" % fld,
-                                      sample="%s stores %s" % (fn.path, fld))
-    # rows handed out are size-long
+                            classify(fn, p, "store-" + fld, (b["id"], i))
+    # rows handed out are size-long: data[index*size .. (index+1)*size], compared as polynomials
+    from . import poly
     for path in ("<qr::QRCode as std::ops::IndexMut<usize>>::index_mut", "<qr::QRCode as std::ops::Index<usize>>::index"):
         fn = anchor_fn(ctx, rid, f, path)
         if not fn:
             continue
-        rng = [b for b in fn.blocks if not b["cleanup"] for st in b["stmts"]
-               if st["k"] == "assign" and st["rv"]["k"] == "agg" and st["rv"].get("path") == "std::ops::Range"]
+
+        def ren(x):
+            if x[0] == "field" and x[3] == "size":
+                return "size"
+            if x == ("param", 2):
+                return "index"
+            return None
         ok = False
         found = None
         for b in fn.blocks:
@@ -804,22 +848,14 @@ def c03_r2(ctx, f):
                 continue
             for i, st in enumerate(b["stmts"]):
                 if st["k"] == "assign" and st["rv"]["k"] == "agg" and st["rv"].get("path") == "std::ops::Range":
-                    lo = fn.canon(st["rv"]["ops"][0], (b["id"], i))
-                    hi = fn.canon(st["rv"]["ops"][1], (b["id"], i))
-                    found = "%s..%s" % (expr_str(lo, fn), expr_str(hi, fn))
-                    size = ("field", ("deref", ("param", 1)), 1, "size")
-                    idx = ("param", 2)
-
-                    def mul(e, a, b):
-                        return e[0] in ("ovf", "bin") and e[1] == "Mul" and {e[2], e[3]} == {a, b}
-
-                    def plus1(e):
-                        return e[0] in ("ovf", "bin") and e[1] == "Add" and (
-                            (e[2] == idx and e[3][0] == "K" and e[3][1] == 1) or (e[3] == idx and e[2][0] == "K" and e[2][1] == 1))
-
-                    ok = mul(lo, idx, size) and hi[0] in ("ovf", "bin") and hi[1] == "Mul" and (
-                        (plus1(hi[2]) and hi[3] == size) or (plus1(hi[3]) and hi[2] == size))
-        _ = rng
+                    lo = poly.normalise(fn.canon(st["rv"]["ops"][0], (b["id"], i)), ren)
+                    hi = poly.normalise(fn.canon(st["rv"]["ops"][1], (b["id"], i)), ren)
+                    found = "%s..%s" % (lo.show(), hi.show())
+                    idx, size = poly.A("index"), poly.A("size")
+                    ok = lo == idx * size and hi == (idx + poly.C(1)) * size
+        if found is None:
+            ctx.abstain(rid, "%s does not slice the backing array with a Range" % path, where_fn(fn))
+            continue
         ctx.check(rid, ok, fn.path + "/row-range", where_fn(fn), fn.path, "row slice",
                   "a row is not the slice data[i*size .. (i+1)*size]", expected="index*size..(index+1)*size", found=found,
                   sample="%s -> data[%s]" % (path.split("::")[-1], found))
